@@ -101,7 +101,7 @@ static int visit_cb(void *e, void *p)
         cstl_dlist_erase(&L[cb_list], e);
         memset(&pool[id].n, 0xA5, sizeof pool[id].n);
     }
-    return (cb_stop && cb_count == cb_stop) ? 100 + cb_stop : 0;
+    return (cb_stop && cb_count == cb_stop) ? e_stopval(cb_stop) : 0;
 }
 static void clear_cb(void *e, void *p)
 {
